@@ -17,7 +17,13 @@ rm -f "$W/$DST"; rmdir "$(dirname "$W/$DST")" 2>/dev/null
 ( cd $W && git apply "$PATCH" )
 echo "suite_with_change=$SUITE demo_with_change=$WITH demo_without_change=$WITHOUT"
 cd /verif
-VERIF_REPO=$W VERIF_SKIP_PROOFS=${SKIP:-1} ./check $PID 2>&1 | grep -v "^KNOWN" | tail -2 > $W/check.log; cat $W/check.log
+# C02 and C10 carry obligations over inventories regenerated from the source: keep the proof step for them
+if [ "$PID" = C02 ] || [ "$PID" = C10 ] || [ "${SKIP:-1}" = no ]; then
+  VERIF_REPO=$W ./check $PID 2>&1 | grep -v "^KNOWN" | tail -2 > $W/check.log
+else
+  VERIF_REPO=$W VERIF_SKIP_PROOFS=1 ./check $PID 2>&1 | grep -v "^KNOWN" | tail -2 > $W/check.log
+fi
+cat $W/check.log
 OUT=/verif/seeded/${PID}_${NAME}
 if [ $SUITE -eq 0 ] && [ $WITH -ne 0 ] && [ $WITHOUT -eq 0 ]; then
   mkdir -p $OUT && cp "$PATCH" $OUT/patch.diff && cp "$DEMO" $OUT/ && tail -5 $W/demo_with.log > $OUT/demo_with_change.log
